@@ -2,16 +2,44 @@
 
 package main
 
+// C05 — command output is a function of input and options, not of parallelism.
+//
+// A case = one run of a real command (binary built from the tree under check with -tags verif: recycled
+// buffers poisoned) on a generated input under one parallelism configuration:
+//
+//	run <scenario> seed= nrec= cpu= batch= gmp= rep= [in=stdin|file|gz] [aff=N]
+//	race <scenario> seed= nrec= cpu= batch= gmp= rep= [in=] [aff=]        (thorough: binary built with -race)
+//
+// cpu=0 is --force-one-cpu (the only way to get one P: the commands call runtime.GOMAXPROCS(--max-cpu)
+// themselves and turn --max-cpu 1 into 2, the GOMAXPROCS variable of the environment is overridden);
+// aff=N pins the process on N cores (taskset): with more Ps than cores the threads are preempted by the
+// operating system inside their critical windows, which is what makes use-after-release of shared buffers
+// visible.
+//
+// Observed per run: every output STREAM of the command (stdout, then the files the scenario names: discarded
+// records, unidentified reads, paired outputs, the files of obidistribute), gunzipped when the scenario
+// compresses. Oracles: (1) identical streams for every configuration and repetition of the same
+// (scenario, input); (2) no poison byte of a recycled buffer; (3) streams = the model's output computed from
+// the outputs of every record run ALONE (sections ` | kind data…` of the augmented case line, one per stream);
+// (4) scenario specific: identity conversions give back the input bytes, files come out in file order;
+// (5) race tier: the Go race detector stays silent.
+
 import (
 	"bytes"
+	"compress/gzip"
+	"encoding/json"
 	"fmt"
+	"io"
 	"math/rand"
 	"os"
 	"os/exec"
 	"path/filepath"
+	"sort"
 	"strconv"
 	"strings"
 	"sync"
+	"sync/atomic"
+	"syscall"
 	"time"
 )
 
@@ -19,37 +47,94 @@ type c05 struct{}
 
 func init() { props["C05"] = c05{} }
 
+// c05Out is one extra output stream of a scenario: a file (relative to the scratch directory) and the kind of
+// its per-record model; file "out/" = every file of that directory (obidistribute), kind "dispatch".
+type c05Out struct {
+	file string
+	kind string
+}
+
 // A scenario = a command with fixed functional options; the input is a pure function of (scenario, seed, nrec).
+// In args `{dir}` is the scratch directory of the run.
 type c05Scenario struct {
-	name  string   // scenario id
-	cmd   string   // command
-	args  []string // functional options
-	kind  string   // "records": output is the concatenation of per-record outputs;
-	// "csv": header + rows; "count": obicount sums; "opaque": only compared across configurations
-	input string // "fasta", "fastq", "pairs", "multiplex", "pcr"
+	name string   // scenario id
+	cmd  string   // command
+	args []string // functional options
+	// kind of the model of stdout — "records": concatenation of the per-record outputs; "csv": header + rows;
+	// "count": obicount sums; "json": `[\n` objects joined by `,\n` `\n]\n`; "summary": obisummary counters
+	// (sum of per-record counters, map-valued included); "opaque": only compared across configurations;
+	// "set": compared across configurations as a multiset of (sequence, count) (obiuniq: order not claimed)
+	kind  string
+	input string // generator: "fasta", "fastq", "pairs", "multiplex", "pcr", "multifile", "fasta-sb", "fastq-sb", "fasta-sample", "uniq", "bigannot"
+	extra []c05Out
+	gz    bool // the outputs are compressed (-Z): gunzipped before any comparison
+	light bool // fewer configurations (scenario added for a second option set of an already covered command)
 }
 
 var c05Scenarios = []c05Scenario{
-	{"convert-fasta", "obiconvert", nil, "records", "fasta"},
-	{"convert-fastq", "obiconvert", nil, "records", "fastq"},
-	{"convert-fq2fa", "obiconvert", []string{"--fasta-output"}, "records", "fastq"},
-	{"convert-obi", "obiconvert", []string{"-O"}, "records", "fasta"},
-	{"grep-len", "obigrep", []string{"-l", "40"}, "records", "fasta"},
-	{"grep-seq", "obigrep", []string{"-s", "acgta"}, "records", "fasta"},
-	{"grep-count", "obigrep", []string{"-c", "3"}, "records", "fasta"},
-	{"annotate-len", "obiannotate", []string{"--length"}, "records", "fasta"},
-	{"annotate-tag", "obiannotate", []string{"-S", "foo=sequence.Len()*2"}, "records", "fasta"},
-	{"annotate-cut", "obiannotate", []string{"--cut", "3:20"}, "records", "fasta"},
-	{"complement", "obicomplement", nil, "records", "fastq"},
-	{"pairing", "obipairing", []string{"--min-overlap", "10"}, "records", "pairs"},
-	{"multiplex", "obimultiplex", []string{"-e", "2"}, "records", "multiplex"},
-	{"pcr", "obipcr", []string{"--forward", "ggtagcgtatcgtaca", "--reverse", "ttgcatcgatcggatc", "-e", "2", "-L", "200"}, "records", "pcr"},
-	{"count", "obicount", nil, "count", "fasta"},
-	{"summary", "obisummary", nil, "opaque", "fasta"},
-	{"csv", "obicsv", []string{"-i", "-s", "--count"}, "csv", "fasta"},
-	{"csv-auto", "obicsv", []string{"--auto", "-i"}, "csv", "fasta"},
+	{name: "convert-fasta", cmd: "obiconvert", kind: "records", input: "fasta"},
+	{name: "convert-fastq", cmd: "obiconvert", kind: "records", input: "fastq"},
+	{name: "convert-fq2fa", cmd: "obiconvert", args: []string{"--fasta-output"}, kind: "records", input: "fastq"},
+	{name: "convert-obi", cmd: "obiconvert", args: []string{"-O"}, kind: "records", input: "fasta"},
+	{name: "grep-len", cmd: "obigrep", args: []string{"-l", "40"}, kind: "records", input: "fasta"},
+	{name: "grep-seq", cmd: "obigrep", args: []string{"-s", "acgta"}, kind: "records", input: "fasta"},
+	{name: "grep-count", cmd: "obigrep", args: []string{"-c", "3"}, kind: "records", input: "fasta"},
+	{name: "annotate-len", cmd: "obiannotate", args: []string{"--length"}, kind: "records", input: "fasta"},
+	{name: "annotate-tag", cmd: "obiannotate", args: []string{"-S", "foo=sequence.Len()*2"}, kind: "records", input: "fasta"},
+	{name: "annotate-cut", cmd: "obiannotate", args: []string{"--cut", "3:20"}, kind: "records", input: "fasta"},
+	{name: "complement", cmd: "obicomplement", kind: "records", input: "fastq"},
+	{name: "pairing", cmd: "obipairing", args: []string{"--min-overlap", "10"}, kind: "records", input: "pairs"},
+	{name: "multiplex", cmd: "obimultiplex", args: []string{"-e", "2"}, kind: "records", input: "multiplex"},
+	{name: "pcr", cmd: "obipcr", args: []string{"--forward", "ggtagcgtatcgtaca", "--reverse", "ttgcatcgatcggatc", "-e", "2", "-L", "200"}, kind: "records", input: "pcr"},
+	{name: "count", cmd: "obicount", kind: "count", input: "fasta"},
+	{name: "summary", cmd: "obisummary", kind: "summary", input: "fasta"},
+	{name: "csv", cmd: "obicsv", args: []string{"-i", "-s", "--count"}, kind: "csv", input: "fasta"},
+	{name: "csv-auto", cmd: "obicsv", args: []string{"--auto", "-i"}, kind: "csv", input: "fasta"},
 	// several input FILES, each larger than the 1 MiB read chunk: records must come out in file order
-	{"convert-multifile", "obiconvert", nil, "opaque", "multifile"},
+	{name: "convert-multifile", cmd: "obiconvert", kind: "opaque", input: "multifile"},
+
+	// ---- JSON output
+	{name: "convert-json", cmd: "obiconvert", args: []string{"--json-output"}, kind: "json", input: "fasta"},
+	{name: "convert-json-fq", cmd: "obiconvert", args: []string{"--json-output"}, kind: "json", input: "fastq", light: true},
+	{name: "grep-json", cmd: "obigrep", args: []string{"-l", "60", "--json-output"}, kind: "json", input: "fasta", light: true},
+	// ---- compressed output: short first chunk(s), then chunks larger than the 4096-byte buffer of the output file
+	{name: "convert-fasta-Z", cmd: "obiconvert", args: []string{"-Z"}, kind: "records", input: "fasta-sb", gz: true},
+	{name: "convert-fastq-Z", cmd: "obiconvert", args: []string{"-Z"}, kind: "records", input: "fastq-sb", gz: true},
+	{name: "convert-json-Z", cmd: "obiconvert", args: []string{"-Z", "--json-output"}, kind: "json", input: "fasta-sb", gz: true},
+	{name: "csv-Z", cmd: "obicsv", args: []string{"-Z", "-i", "-s", "--count"}, kind: "csv", input: "fasta-sb", gz: true},
+	{name: "convert-files-Z", cmd: "obiconvert", args: []string{"-Z"}, kind: "records", input: "files-sb", gz: true},
+	{name: "annotate-Z", cmd: "obiannotate", args: []string{"-Z", "--length"}, kind: "records", input: "fasta-sb", gz: true, light: true},
+	// ---- two outputs: kept on stdout, discarded in a file
+	{name: "grep-discard", cmd: "obigrep", args: []string{"-l", "60", "--save-discarded", "{dir}/disc.fasta"}, kind: "records", input: "fasta",
+		extra: []c05Out{{"disc.fasta", "records"}}},
+	{name: "grep-discard-Z", cmd: "obigrep", args: []string{"-Z", "-s", "^[acgt]{0,200}$", "--save-discarded", "{dir}/disc.fasta"}, kind: "records", input: "fasta-sb", gz: true, light: true,
+		extra: []c05Out{{"disc.fasta", "records"}}},
+	{name: "grep-inverse", cmd: "obigrep", args: []string{"-v", "-a", "tag=x[12]"}, kind: "records", input: "fasta", light: true},
+	{name: "grep-pred", cmd: "obigrep", args: []string{"-p", "sequence.Len() % 3 == 0 || annotations.count > 4"}, kind: "records", input: "fasta", light: true},
+	// ---- paired reads filtered together, two output files
+	{name: "grep-paired", cmd: "obigrep", args: []string{"-l", "95", "--paired-mode", "and", "-o", "{dir}/gp.fastq"}, kind: "records", input: "pairs-grep",
+		extra: []c05Out{{"gp_R1.fastq", "records"}, {"gp_R2.fastq", "records"}}},
+	// ---- dispatching command: one file per value of an attribute
+	{name: "distribute", cmd: "obidistribute", args: []string{"-p", "{dir}/out/o_%s.fasta", "-c", "tag"}, kind: "records", input: "fasta",
+		extra: []c05Out{{"out/", "dispatch"}}},
+	{name: "distribute-Z", cmd: "obidistribute", args: []string{"-Z", "-p", "{dir}/out/o_%s.fasta", "-c", "tag"}, kind: "records", input: "fasta-sb", gz: true, light: true,
+		extra: []c05Out{{"out/", "dispatch"}}},
+	// ---- obiannotate with several options at once
+	{name: "annotate-multi", cmd: "obiannotate", args: []string{"--length", "-S", "half=sequence.Len()/2", "-R", "label=tag", "--delete-tag", "count", "--set-identifier", "sequence.Id() + \"_x\""}, kind: "records", input: "fasta"},
+	{name: "annotate-keep", cmd: "obiannotate", args: []string{"-k", "count", "--pattern", "acgta", "--pattern-error", "1"}, kind: "records", input: "fasta", light: true},
+	{name: "annotate-sel", cmd: "obiannotate", args: []string{"-l", "50", "-S", "long=true"}, kind: "records", input: "fasta", light: true},
+	// ---- obimultiplex with the unassigned reads in a second file
+	{name: "multiplex-unid", cmd: "obimultiplex", args: []string{"-e", "1", "-u", "{dir}/unid.fastq"}, kind: "records", input: "multiplex",
+		extra: []c05Out{{"unid.fastq", "records"}}},
+	// ---- aggregating commands
+	{name: "summary-sample", cmd: "obisummary", kind: "summary", input: "fasta-sample"},
+	{name: "summary-yaml", cmd: "obisummary", args: []string{"--yaml-output"}, kind: "opaque", input: "fasta-sample", light: true},
+	{name: "count-fq", cmd: "obicount", kind: "count", input: "fastq", light: true},
+	{name: "count-variants", cmd: "obicount", args: []string{"-v", "-r"}, kind: "opaque", input: "fasta", light: true},
+	// ---- the output SET (not its order) is claimed
+	{name: "uniq", cmd: "obiuniq", args: []string{"--in-memory"}, kind: "set", input: "uniq", light: true},
+	// ---- identity conversion of a large annotated file: the output must be the input, byte for byte, in every run
+	{name: "convert-bigannot", cmd: "obiconvert", kind: "opaque", input: "bigannot"},
 }
 
 func c05Scenario_(name string) *c05Scenario {
@@ -86,6 +171,30 @@ func c05Qual(r *rand.Rand, n int) []byte {
 	return q
 }
 
+func c05Fold(sb *strings.Builder, s []byte) {
+	for j := 0; j < len(s); j += 60 {
+		e := j + 60
+		if e > len(s) {
+			e = len(s)
+		}
+		sb.Write(s[j:e])
+		sb.WriteByte('\n')
+	}
+}
+
+// c05SbLen : lengths of the "small then big" inputs: the first records are short (a formatted batch stays
+// far below 4096 bytes), then come records whose text alone exceeds the buffer, then a mix
+func c05SbLen(r *rand.Rand, i, nrec int) int {
+	switch {
+	case i < 2+nrec/8:
+		return 10 + r.Intn(30)
+	case i%3 != 2:
+		return 4200 + r.Intn(1500)
+	default:
+		return 10 + r.Intn(200)
+	}
+}
+
 // c05Records returns, per record, the text(s) of that record in the input file(s).
 // For "pairs" each record has two texts (forward file, reverse file).
 func c05Records(sc *c05Scenario, seed int64, nrec int) [][2]string {
@@ -93,33 +202,61 @@ func c05Records(sc *c05Scenario, seed int64, nrec int) [][2]string {
 	recs := make([][2]string, nrec)
 	for i := 0; i < nrec; i++ {
 		id := fmt.Sprintf("s%03d", i)
-		if sc.input == "multifile" {
+		if sc.input == "multifile" || sc.input == "bigannot" {
 			id = fmt.Sprintf("s%06d", i)
 		}
 		switch sc.input {
 		case "multifile":
 			recs[i][0] = fmt.Sprintf(">%s {\"count\":%d}\n%s\n", id, 1+r.Intn(6), c05Dna(r, 140+r.Intn(20)))
-		case "fasta":
+		case "bigannot":
+			// already in the canonical output form (keys sorted, 60 columns): obiconvert must give it back unchanged;
+			// the title lines differ in length and content from record to record
+			var sb strings.Builder
+			fmt.Fprintf(&sb, ">%s {\"count\":%d,\"label\":\"%s\",\"rank\":%d,\"tag\":\"x%d\"}\n", id, 1+i%977, strings.Repeat("k", 1+i%23), i, i%7)
+			c05Fold(&sb, c05Dna(r, 30+r.Intn(50)))
+			recs[i][0] = sb.String()
+		case "fasta", "fasta-sb", "files-sb":
 			n := 10 + r.Intn(120)
+			if sc.input != "fasta" {
+				n = c05SbLen(r, i, nrec)
+			}
 			s := c05Dna(r, n)
 			if r.Intn(3) == 0 {
 				copy(s[n/2:], "acgta")
 			}
 			var sb strings.Builder
 			fmt.Fprintf(&sb, ">%s {\"count\":%d,\"tag\":\"x%d\"}\n", id, 1+r.Intn(6), r.Intn(4))
-			for j := 0; j < n; j += 60 {
-				e := j + 60
-				if e > n {
-					e = n
-				}
-				sb.Write(s[j:e])
-				sb.WriteByte('\n')
-			}
+			c05Fold(&sb, s)
 			recs[i][0] = sb.String()
-		case "fastq":
+		case "fasta-sample":
 			n := 10 + r.Intn(120)
+			var sb strings.Builder
+			switch r.Intn(4) {
+			case 0: // a dereplicated record: map-valued and vector-valued attributes
+				fmt.Fprintf(&sb, ">%s {\"count\":%d,\"merged_sample\":{\"sm%d\":%d,\"sm%d\":%d},\"path\":[1,2,%d]}\n", id, 2+r.Intn(6), r.Intn(3), 1+r.Intn(3), 3+r.Intn(2), 1+r.Intn(2), r.Intn(9))
+			case 1:
+				fmt.Fprintf(&sb, ">%s {\"sample\":\"sm%d\"}\n", id, r.Intn(5))
+			case 2:
+				fmt.Fprintf(&sb, ">%s\n", id)
+			default:
+				fmt.Fprintf(&sb, ">%s {\"count\":%d,\"sample\":\"sm%d\",\"k%d\":\"v\"}\n", id, 1+r.Intn(4), r.Intn(5), r.Intn(6))
+			}
+			c05Fold(&sb, c05Dna(r, n))
+			recs[i][0] = sb.String()
+		case "uniq":
+			// few distinct sequences, many copies
+			rs := rand.New(rand.NewSource(seed + int64(r.Intn(1+nrec/4))))
+			var sb strings.Builder
+			fmt.Fprintf(&sb, ">%s {\"count\":%d}\n", id, 1+r.Intn(3))
+			c05Fold(&sb, c05Dna(rs, 30+rs.Intn(40)))
+			recs[i][0] = sb.String()
+		case "fastq", "fastq-sb":
+			n := 10 + r.Intn(120)
+			if sc.input == "fastq-sb" {
+				n = c05SbLen(r, i, nrec)
+			}
 			recs[i][0] = fmt.Sprintf("@%s {\"count\":%d}\n%s\n+\n%s\n", id, 1+r.Intn(6), c05Dna(r, n), c05Qual(r, n))
-		case "pairs":
+		case "pairs", "pairs-grep":
 			frag := c05Dna(r, 120+r.Intn(60))
 			lf, lr := 80+r.Intn(30), 80+r.Intn(30)
 			if lf > len(frag) {
@@ -175,30 +312,63 @@ exp,s3,ggtca:ttgac,ggtagcgtatcgtaca,ttgcatcgatcggatc
 exp,s4,ttgac:aacgt,ggtagcgtatcgtaca,ttgcatcgatcggatc
 `
 
+// ---------------------------------------------------------------------------------------------------------
+// binaries
+
 var (
 	c05BinMu  sync.Mutex
-	c05Bins   = map[string]string{}
-	c05Single sync.Map // key -> []string per-record outputs
+	c05Built  = map[bool]string{} // race? -> directory, "" = build failed
+	c05BErr   = map[bool]string{}
+	c05Flags  = map[string]map[string]bool{}
+	c05Single sync.Map // key -> [][]string per-record outputs (one []string per stream)
 )
 
-func c05Bin(name string) (string, error) {
+func c05Commands() []string {
+	seen := map[string]bool{}
+	var l []string
+	for _, sc := range c05Scenarios {
+		if !seen[sc.cmd] {
+			seen[sc.cmd] = true
+			l = append(l, sc.cmd)
+		}
+	}
+	sort.Strings(l)
+	return l
+}
+
+// c05Build builds every command of the scenario list in ONE `go build` (shared package loading and cache), with
+// -tags verif, into <bin>/cmdv/ (or <bin>/cmdr/ with -race). A failed build is retried once (transient failures of
+// the tool chain on a loaded machine). Several harness processes may build at the same time: every binary is
+// built under a private name and renamed into place.
+func c05Build(race bool) (string, error) {
 	c05BinMu.Lock()
 	defer c05BinMu.Unlock()
-	if p, ok := c05Bins[name]; ok {
-		return p, nil
-	}
-	root := os.Getenv("VERIF_ROOT")
-	if root == "" {
-		root = "/verif"
+	if d, ok := c05Built[race]; ok {
+		if d == "" {
+			return "", fmt.Errorf("%s", c05BErr[race])
+		}
+		return d, nil
 	}
 	repo := os.Getenv("VERIF_REPO")
 	if repo == "" {
 		repo = "/repo"
 	}
-	out := filepath.Join(binDir(), "cmdv_"+name)
-	tmpOut := fmt.Sprintf("%s.%d", out, os.Getpid())
-	cmd := exec.Command("go", "build", "-tags", "verif", "-o", tmpOut, "./cmd/obitools/"+name)
-	cmd.Dir = repo
+	dir := filepath.Join(binDir(), "cmdv")
+	if race {
+		dir = filepath.Join(binDir(), "cmdr")
+	}
+	tmp := fmt.Sprintf("%s.%d", dir, os.Getpid())
+	os.MkdirAll(dir, 0o755)
+	os.MkdirAll(tmp, 0o755)
+	defer os.RemoveAll(tmp)
+	args := []string{"build", "-tags", "verif"}
+	if race {
+		args = append(args, "-race")
+	}
+	args = append(args, "-o", tmp+"/")
+	for _, c := range c05Commands() {
+		args = append(args, "./cmd/obitools/"+c)
+	}
 	env := []string{}
 	for _, e := range os.Environ() {
 		if strings.HasPrefix(e, "GOFLAGS=") || strings.HasPrefix(e, "GOWORK=") {
@@ -206,59 +376,164 @@ func c05Bin(name string) (string, error) {
 		}
 		env = append(env, e)
 	}
-	cmd.Env = append(env, "GOPROXY=off", "GOSUMDB=off", "GOTOOLCHAIN=local", "CGO_CFLAGS=-w -O2")
-	if b, err := cmd.CombinedOutput(); err != nil {
-		return "", fmt.Errorf("go build %s: %v: %s", name, err, b[max(0, len(b)-400):])
+	env = append(env, "GOPROXY=off", "GOSUMDB=off", "GOTOOLCHAIN=local", "CGO_CFLAGS=-w -O2")
+	var lastErr string
+	for attempt := 0; attempt < 2; attempt++ {
+		cmd := exec.Command("go", args...)
+		cmd.Dir = repo
+		cmd.Env = env
+		b, err := cmd.CombinedOutput()
+		if err == nil {
+			lastErr = ""
+			break
+		}
+		lastErr = fmt.Sprintf("go build (race=%v): %v: %s", race, err, b[max(0, len(b)-600):])
+		stat("build-retry")
+		time.Sleep(500 * time.Millisecond)
 	}
-	// several harness processes may build at the same time: atomic replacement
-	if err := os.Rename(tmpOut, out); err != nil {
-		return "", err
+	if lastErr != "" {
+		c05Built[race], c05BErr[race] = "", lastErr
+		return "", fmt.Errorf("%s", lastErr)
 	}
-	// which of the parallelism options does the command know?
-	help, _ := exec.Command(out, "--help").CombinedOutput()
-	c05Flags[name] = map[string]bool{
-		"--batch-size":     bytes.Contains(help, []byte("--batch-size")),
-		"--no-progressbar": bytes.Contains(help, []byte("--no-progressbar")),
-		"--max-cpu":        bytes.Contains(help, []byte("--max-cpu")),
+	for _, c := range c05Commands() {
+		if err := os.Rename(filepath.Join(tmp, c), filepath.Join(dir, c)); err != nil {
+			c05Built[race], c05BErr[race] = "", err.Error()
+			return "", err
+		}
+		if !race {
+			// which of the parallelism options does the command know?
+			help, _ := exec.Command(filepath.Join(dir, c), "--help").CombinedOutput()
+			c05Flags[c] = map[string]bool{
+				"--batch-size":     bytes.Contains(help, []byte("--batch-size")),
+				"--no-progressbar": bytes.Contains(help, []byte("--no-progressbar")),
+				"--max-cpu":        bytes.Contains(help, []byte("--max-cpu")),
+				"--force-one-cpu":  bytes.Contains(help, []byte("--force-one-cpu")),
+			}
+		}
 	}
-	c05Bins[name] = out
-	return out, nil
+	c05Built[race] = dir
+	return dir, nil
 }
 
-var c05Flags = map[string]map[string]bool{}
+// ---------------------------------------------------------------------------------------------------------
+// one run
 
-// c05Run executes the scenario on the given records with a parallelism configuration.
-func c05Run(sc *c05Scenario, recs [][2]string, cpu, batch, gmp int) (string, []byte) {
-	bin, err := c05Bin(sc.cmd)
-	if err != nil {
-		return "build-error", []byte(err.Error())
+// c05Cfg is a parallelism configuration
+type c05Cfg struct {
+	cpu, batch, gmp int
+	in              string // "stdin", "file", "gz"
+	aff             int    // number of cores the process is pinned on, 0 = no pinning
+	race            bool
+}
+
+// c05Res is what a run gave
+type c05Res struct {
+	status  string   // ok, exit-nonzero, hang, start-error, build-error, killed
+	streams [][]byte // stdout, then the extra outputs in declared order (a dispatch stream is canonicalised: see c05DispatchCanon)
+	detail  string   // exit code / signal and the end of stderr: only ever printed in the text of a failure
+	races   []string // innermost frames of the accesses reported by the race detector
+	poison  bool     // an output contains the poison value of a recycled buffer
+}
+
+// c05ProcSem bounds the number of command processes alive at the same time
+var c05ProcSem = make(chan struct{}, 14)
+
+var c05AffNext atomic.Int64
+
+var c05HasTaskset = func() bool { _, err := exec.LookPath("taskset"); return err == nil }()
+
+func gunzipAll(b []byte) ([]byte, error) {
+	if len(b) == 0 {
+		return b, nil
 	}
+	zr, err := gzip.NewReader(bytes.NewReader(b)) // multi-member streams are read to the end
+	if err != nil {
+		return nil, err
+	}
+	return io.ReadAll(zr)
+}
+
+// c05DispatchCanon : the files of a directory as `name:hex,name:hex` sorted by (length of name, name)
+func c05DispatchCanon(files map[string][]byte) []byte {
+	names := make([]string, 0, len(files))
+	for n := range files {
+		names = append(names, n)
+	}
+	sort.Slice(names, func(i, j int) bool {
+		if len(names[i]) != len(names[j]) {
+			return len(names[i]) < len(names[j])
+		}
+		return names[i] < names[j]
+	})
+	parts := make([]string, len(names))
+	for i, n := range names {
+		parts[i] = hx([]byte(n)) + ":" + hx(files[n])
+	}
+	if len(parts) == 0 {
+		return []byte("-")
+	}
+	return []byte(strings.Join(parts, ","))
+}
+
+// c05RunOnce executes the scenario once; infra tells that the failure is not the program's doing (could not be
+// started, killed by a signal it did not raise itself, our own timeout)
+func c05RunOnce(sc *c05Scenario, recs [][2]string, cfg c05Cfg) (res c05Res, infra bool) {
+	bdir, err := c05Build(cfg.race)
+	if err != nil {
+		return c05Res{status: "build-error", detail: err.Error()}, false
+	}
+	bin := filepath.Join(bdir, sc.cmd)
 	dir, _ := os.MkdirTemp("", "c05")
 	defer os.RemoveAll(dir)
-	stdin := ""
+	os.Mkdir(filepath.Join(dir, "out"), 0o755)
 	var a, b strings.Builder
 	for _, r := range recs {
 		a.WriteString(r[0])
 		b.WriteString(r[1])
 	}
-	args := append([]string{}, sc.args...)
+	args := []string{}
+	for _, x := range sc.args {
+		args = append(args, strings.ReplaceAll(x, "{dir}", dir))
+	}
 	c05BinMu.Lock()
 	flags := c05Flags[sc.cmd]
 	c05BinMu.Unlock()
-	if flags["--max-cpu"] {
-		args = append(args, "--max-cpu", strconv.Itoa(cpu))
+	if cfg.cpu == 0 && flags["--force-one-cpu"] {
+		args = append(args, "--force-one-cpu")
+	} else if flags["--max-cpu"] {
+		args = append(args, "--max-cpu", strconv.Itoa(max(cfg.cpu, 1)))
 	}
 	if flags["--batch-size"] {
-		args = append(args, "--batch-size", strconv.Itoa(batch))
+		args = append(args, "--batch-size", strconv.Itoa(cfg.batch))
 	}
 	if flags["--no-progressbar"] {
 		args = append(args, "--no-progressbar")
 	}
+	put := func(name, text string) string {
+		p := filepath.Join(dir, name)
+		if cfg.in == "gz" {
+			p += ".gz"
+			var zb bytes.Buffer
+			zw := gzip.NewWriter(&zb)
+			zw.Write([]byte(text))
+			zw.Close()
+			os.WriteFile(p, zb.Bytes(), 0o644)
+		} else {
+			os.WriteFile(p, []byte(text), 0o644)
+		}
+		return p
+	}
+	stdin := ""
+	useStdin := false
+	ext := ".fasta"
+	if strings.HasPrefix(a.String(), "@") {
+		ext = ".fastq"
+	}
 	switch sc.input {
 	case "pairs":
-		os.WriteFile(filepath.Join(dir, "f.fastq"), []byte(a.String()), 0o644)
-		os.WriteFile(filepath.Join(dir, "r.fastq"), []byte(b.String()), 0o644)
-		args = append(args, "-F", filepath.Join(dir, "f.fastq"), "-R", filepath.Join(dir, "r.fastq"))
+		args = append(args, "-F", put("f.fastq", a.String()), "-R", put("r.fastq", b.String()))
+	case "pairs-grep":
+		args = append(args, "--paired-with", put("r.fastq", b.String()), put("f.fastq", a.String()))
 	case "multifile":
 		// the records are split between two files given in order on the command line
 		var f1, f2 strings.Builder
@@ -269,64 +544,256 @@ func c05Run(sc *c05Scenario, recs [][2]string, cpu, batch, gmp int) (string, []b
 				f2.WriteString(r[0])
 			}
 		}
-		os.WriteFile(filepath.Join(dir, "a.fasta"), []byte(f1.String()), 0o644)
-		os.WriteFile(filepath.Join(dir, "b.fasta"), []byte(f2.String()), 0o644)
-		args = append(args, filepath.Join(dir, "a.fasta"), filepath.Join(dir, "b.fasta"))
-	case "multiplex":
-		os.WriteFile(filepath.Join(dir, "sheet.csv"), []byte(c05Sheet), 0o644)
-		args = append(args, "-t", filepath.Join(dir, "sheet.csv"))
-		stdin = a.String()
+		args = append(args, put("a.fasta", f1.String()), put("b.fasta", f2.String()))
+	case "files-sb":
+		// three files on the command line: a small one, a big one, a small one (a file is cut into 1 MiB chunks
+		// whatever --batch-size says: here one chunk per file)
+		var f [3]strings.Builder
+		for i, r := range recs {
+			k := 1
+			if i < 2+len(recs)/8 {
+				k = 0
+			} else if i >= len(recs)-2 {
+				k = 2
+			}
+			f[k].WriteString(r[0])
+		}
+		args = append(args, put("a.fasta", f[0].String()), put("b.fasta", f[1].String()), put("c.fasta", f[2].String()))
+	case "bigannot":
+		args = append(args, put("big.fasta", a.String()))
 	default:
-		// the sequences come on stdin: it is the only reader that cuts its input into batches of
-		// --batch-size records (files are cut into 1 MiB chunks whatever the option says), so this is
-		// what makes the batch partition and the worker parallelism vary with the configuration
-		stdin = a.String()
+		if sc.input == "multiplex" {
+			os.WriteFile(filepath.Join(dir, "sheet.csv"), []byte(c05Sheet), 0o644)
+			args = append(args, "-t", filepath.Join(dir, "sheet.csv"))
+		}
+		if cfg.in == "file" || cfg.in == "gz" {
+			args = append(args, put("in"+ext, a.String()))
+		} else {
+			// the sequences come on stdin: it is the only reader that cuts its input into batches of
+			// --batch-size records (files are cut into 1 MiB chunks whatever the option says), so this is
+			// what makes the batch partition and the worker parallelism vary with the configuration
+			stdin, useStdin = a.String(), true
+		}
 	}
-	cmd := exec.Command(bin, args...)
-	if sc.input != "pairs" && sc.input != "multifile" {
+	argv := append([]string{bin}, args...)
+	if cfg.aff > 0 && c05HasTaskset {
+		n := int(c05AffNext.Add(int64(cfg.aff)))
+		ncpu := max(1, numCPU())
+		cpus := make([]string, cfg.aff)
+		for i := range cpus {
+			cpus[i] = strconv.Itoa((n + i) % ncpu)
+		}
+		argv = append([]string{"taskset", "-c", strings.Join(cpus, ",")}, argv...)
+	}
+	c05ProcSem <- struct{}{}
+	defer func() { <-c05ProcSem }()
+	cmd := exec.Command(argv[0], argv[1:]...)
+	if useStdin {
 		cmd.Stdin = strings.NewReader(stdin)
 	}
-	cmd.Env = append(os.Environ(), "GOMAXPROCS="+strconv.Itoa(gmp))
-	var stdout bytes.Buffer
-	cmd.Stdout = &stdout
-	done := make(chan error, 1)
-	if err := cmd.Start(); err != nil {
-		return "start-error", nil
+	cmd.Env = append(os.Environ(), "GOMAXPROCS="+strconv.Itoa(cfg.gmp))
+	if cfg.race {
+		cmd.Env = append(cmd.Env, "GORACE=halt_on_error=0 exitcode=0")
 	}
+	var stdout, stderr bytes.Buffer
+	cmd.Stdout = &stdout
+	cmd.Stderr = &stderr
+	if err := cmd.Start(); err != nil {
+		return c05Res{status: "start-error", detail: err.Error()}, true
+	}
+	done := make(chan error, 1)
 	go func() { done <- cmd.Wait() }()
+	limit := 120 * time.Second
+	if cfg.race {
+		limit = 400 * time.Second
+	}
+	tail := func() string {
+		e := stderr.Bytes()
+		// the interesting part of stderr is its end; logrus info lines are dropped first
+		var keep []string
+		for _, l := range strings.Split(string(e), "\n") {
+			if l != "" && !strings.Contains(l, "level=info") {
+				keep = append(keep, l)
+			}
+		}
+		s := strings.Join(keep, " / ")
+		// a Go panic / runtime failure: the message and the first frames; otherwise the end of stderr
+		for _, mark := range []string{"panic:", "fatal error:", "WARNING: DATA RACE"} {
+			if k := strings.Index(s, mark); k >= 0 {
+				s = s[k:]
+				if len(s) > 600 {
+					s = s[:600]
+				}
+				return s
+			}
+		}
+		if len(s) > 400 {
+			s = s[len(s)-400:]
+		}
+		return s
+	}
 	select {
 	case err := <-done:
 		if err != nil {
-			return "exit-nonzero", stdout.Bytes()
+			res.status = "exit-nonzero"
+			res.detail = err.Error()
+			if ee, ok := err.(*exec.ExitError); ok {
+				if ws, ok := ee.Sys().(syscall.WaitStatus); ok {
+					if ws.Signaled() {
+						res.status = "killed"
+						res.detail = "signal " + ws.Signal().String()
+						// SIGKILL / SIGTERM are never raised by the program itself (OOM killer, operator)
+						infra = ws.Signal() == syscall.SIGKILL || ws.Signal() == syscall.SIGTERM
+					} else {
+						res.detail = fmt.Sprintf("exit status %d", ws.ExitStatus())
+					}
+				}
+			}
+			res.detail += "; stderr: " + tail()
+		} else {
+			res.status = "ok"
 		}
-		return "ok", stdout.Bytes()
-	case <-time.After(120 * time.Second):
+	case <-time.After(limit):
 		cmd.Process.Kill()
-		return "hang", stdout.Bytes()
+		<-done
+		res.status = "hang"
+		res.detail = fmt.Sprintf("no end after %v (killed by the harness); stderr: %s", limit, tail())
+		infra = true
 	}
+	if cfg.race {
+		res.races = c05RaceSites(stderr.String())
+	}
+	unz := func(b []byte) []byte {
+		if !sc.gz {
+			if bytes.Contains(b, []byte{0xDB, 0xDB}) {
+				res.poison = true
+			}
+			return b
+		}
+		u, err := gunzipAll(b)
+		if bytes.Contains(u, []byte{0xDB, 0xDB}) {
+			res.poison = true
+		}
+		if err != nil {
+			if res.status == "ok" {
+				res.status = "bad-gzip"
+				res.detail = err.Error()
+			}
+			return b
+		}
+		return u
+	}
+	res.streams = append(res.streams, unz(stdout.Bytes()))
+	for _, o := range sc.extra {
+		if o.kind == "dispatch" {
+			files := map[string][]byte{}
+			ents, _ := os.ReadDir(filepath.Join(dir, o.file))
+			for _, e := range ents {
+				c, _ := os.ReadFile(filepath.Join(dir, o.file, e.Name()))
+				files[e.Name()] = unz(c)
+			}
+			res.streams = append(res.streams, c05DispatchCanon(files))
+			continue
+		}
+		c, err := os.ReadFile(filepath.Join(dir, o.file))
+		if err != nil && sc.gz {
+			c, err = os.ReadFile(filepath.Join(dir, o.file+".gz"))
+		}
+		if err != nil {
+			c = nil // a stream never opened is an empty stream
+		}
+		res.streams = append(res.streams, unz(c))
+	}
+	return res, infra
 }
 
-// c05Singles runs the scenario on every record alone (in parallel processes) and returns the outputs.
-func c05Singles(sc *c05Scenario, seed int64, nrec int) []string {
+func numCPU() int {
+	if b, err := os.ReadFile("/proc/cpuinfo"); err == nil {
+		if n := bytes.Count(b, []byte("\nprocessor")) + 1; n > 1 {
+			return n
+		}
+	}
+	return 1
+}
+
+// c05Run : c05RunOnce, a failure that is not the program's doing being retried (at most twice); an exit status
+// produced by the program itself (log.Fatal, panic, runtime crash) is never retried
+func c05Run(sc *c05Scenario, recs [][2]string, cfg c05Cfg) c05Res {
+	var res c05Res
+	for attempt := 0; attempt < 3; attempt++ {
+		var infra bool
+		res, infra = c05RunOnce(sc, recs, cfg)
+		if res.status == "ok" || !infra {
+			return res
+		}
+		stat("infra-retry")
+		time.Sleep(time.Duration(200*(attempt+1)) * time.Millisecond)
+	}
+	res.detail += " (3 attempts)"
+	return res
+}
+
+// c05RaceSites : for every report of the race detector, the innermost frame of each of the two accesses
+func c05RaceSites(stderr string) []string {
+	var sites []string
+	for _, block := range strings.Split(stderr, "==================") {
+		if !strings.Contains(block, "WARNING: DATA RACE") {
+			continue
+		}
+		inAccess := false
+		var locs []string
+		for _, l := range strings.Split(block, "\n") {
+			t := strings.TrimSpace(l)
+			switch {
+			case strings.HasPrefix(t, "Read at"), strings.HasPrefix(t, "Write at"), strings.HasPrefix(t, "Previous read at"),
+				strings.HasPrefix(t, "Previous write at"), strings.HasPrefix(t, "Atomic"), strings.HasPrefix(t, "Previous atomic"):
+				inAccess = true
+			case strings.HasPrefix(t, "Goroutine "):
+				inAccess = false
+			case inAccess && strings.Contains(t, ".go:"):
+				inAccess = false
+				loc := t
+				if k := strings.LastIndex(loc, "/pkg/"); k >= 0 {
+					loc = loc[k+1:]
+				} else if k := strings.LastIndex(loc, "/"); k >= 0 {
+					loc = loc[k+1:]
+				}
+				if k := strings.IndexByte(loc, ' '); k > 0 {
+					loc = loc[:k]
+				}
+				locs = append(locs, loc)
+			}
+		}
+		sort.Strings(locs)
+		sites = append(sites, strings.Join(locs, "<->"))
+	}
+	return sites
+}
+
+// c05Singles runs the scenario on every record alone (in parallel processes) and returns, per stream, the outputs.
+func c05Singles(sc *c05Scenario, seed int64, nrec int) [][]string {
 	key := fmt.Sprintf("%s/%d/%d", sc.name, seed, nrec)
 	if v, ok := c05Single.Load(key); ok {
-		return v.([]string)
+		return v.([][]string)
 	}
 	recs := c05Records(sc, seed, nrec)
-	out := make([]string, nrec)
+	ns := 1 + len(sc.extra)
+	out := make([][]string, ns)
+	for j := range out {
+		out[j] = make([]string, nrec)
+	}
 	var wg sync.WaitGroup
-	sem := make(chan struct{}, 12)
 	for i := range recs {
 		wg.Add(1)
-		sem <- struct{}{}
 		go func(i int) {
 			defer wg.Done()
-			defer func() { <-sem }()
-			st, o := c05Run(sc, recs[i:i+1], 1, 1, 1)
-			if st != "ok" {
-				out[i] = "!" + st
-			} else {
-				out[i] = string(o)
+			r := c05Run(sc, recs[i:i+1], c05Cfg{cpu: 1, batch: 1, gmp: 1, in: "stdin"})
+			for j := 0; j < ns; j++ {
+				if r.status != "ok" || j >= len(r.streams) {
+					out[j][i] = "!" + r.status
+				} else {
+					out[j][i] = string(r.streams[j])
+				}
 			}
 		}(i)
 	}
@@ -335,7 +802,42 @@ func c05Singles(sc *c05Scenario, seed int64, nrec int) []string {
 	return out
 }
 
-var c05Configs = [][3]int{{1, 1, 1}, {1, 1000, 4}, {2, 3, 4}, {3, 7, 2}, {8, 2, 8}, {32, 5, 16}, {4, 1, 1}}
+// ---------------------------------------------------------------------------------------------------------
+// generation
+
+var c05Configs = []c05Cfg{
+	{cpu: 1, batch: 1, gmp: 1}, {cpu: 1, batch: 1000, gmp: 4}, {cpu: 2, batch: 3, gmp: 4}, {cpu: 3, batch: 7, gmp: 2},
+	{cpu: 8, batch: 2, gmp: 8}, {cpu: 32, batch: 5, gmp: 16}, {cpu: 4, batch: 1, gmp: 1},
+	{cpu: 0, batch: 2, gmp: 1}, {cpu: 4, batch: 1000, gmp: 4, in: "file"}, {cpu: 2, batch: 2, gmp: 2, in: "gz"},
+	{cpu: 16, batch: 1, gmp: 16, aff: 1}, {cpu: 2, batch: 4, gmp: 2, aff: 2},
+}
+
+var c05LightConfigs = []c05Cfg{
+	{cpu: 1, batch: 1000, gmp: 4}, {cpu: 2, batch: 3, gmp: 4}, {cpu: 8, batch: 1, gmp: 8}, {cpu: 0, batch: 2, gmp: 1},
+	{cpu: 4, batch: 1000, gmp: 4, in: "file"}, {cpu: 16, batch: 2, gmp: 16, aff: 1},
+}
+
+func c05Line(op string, sc *c05Scenario, seed int64, nrec int, cfg c05Cfg, rep int) string {
+	l := fmt.Sprintf("%s %s seed=%d nrec=%d cpu=%d batch=%d gmp=%d rep=%d", op, sc.name, seed, nrec, cfg.cpu, cfg.batch, cfg.gmp, rep)
+	if cfg.in != "" && cfg.in != "stdin" {
+		l += " in=" + cfg.in
+	}
+	if cfg.aff > 0 {
+		l += " aff=" + strconv.Itoa(cfg.aff)
+	}
+	return l
+}
+
+// c05FirstSeed : of the parallel thorough processes (seeds s*1000+i) only the first runs the race tier
+func c05FirstSeed() bool {
+	for i, a := range os.Args {
+		if a == "-seed" && i+1 < len(os.Args) {
+			s, err := strconv.Atoi(os.Args[i+1])
+			return err == nil && s%1000 == 0
+		}
+	}
+	return false
+}
 
 func (c05) Gen(rng *rand.Rand, tier string, emit func(string)) {
 	seeds := 1
@@ -344,13 +846,36 @@ func (c05) Gen(rng *rand.Rand, tier string, emit func(string)) {
 		seeds = 3
 		nrec = 60
 	}
-	for _, sc := range c05Scenarios {
-		if sc.input == "multifile" {
+	var lines []string
+	add := func(l string) { lines = append(lines, l) }
+	for i := range c05Scenarios {
+		sc := &c05Scenarios[i]
+		switch sc.input {
+		case "multifile":
 			ms := rng.Int63n(1 << 30)
-			for _, cfg := range [][3]int{{1, 1000, 1}, {16, 1000, 16}, {8, 1000, 4}, {16, 1000, 16}} {
-				emit(fmt.Sprintf("run %s seed=%d nrec=16000 cpu=%d batch=%d gmp=%d rep=%d", sc.name, ms, cfg[0], cfg[1], cfg[2], cfg[0]))
+			for k, cfg := range []c05Cfg{{cpu: 1, batch: 1000, gmp: 1}, {cpu: 16, batch: 1000, gmp: 16}, {cpu: 8, batch: 1000, gmp: 4}, {cpu: 16, batch: 1000, gmp: 16}} {
+				add(c05Line("run", sc, ms, 16000, cfg, k))
 			}
 			continue
+		case "bigannot":
+			// 2 formatting workers on one core, a large annotated file: a title line that is a view of a buffer
+			// shared between the formatting goroutines is overwritten before it is copied in one run out of a few
+			ms := rng.Int63n(1 << 30)
+			n := 40000
+			cfgs := []c05Cfg{{cpu: 2, batch: 1000, gmp: 2, aff: 1}, {cpu: 8, batch: 1000, gmp: 8, aff: 1}, {cpu: 16, batch: 1000, gmp: 16}}
+			if tier == "thorough" {
+				n = 300000
+				cfgs = []c05Cfg{{cpu: 2, batch: 1000, gmp: 2, aff: 1}, {cpu: 2, batch: 1000, gmp: 2}, {cpu: 8, batch: 1000, gmp: 8, aff: 1}, {cpu: 8, batch: 1000, gmp: 8, aff: 2},
+					{cpu: 16, batch: 1000, gmp: 16}, {cpu: 2, batch: 1000, gmp: 2, aff: 1}}
+			}
+			for k, cfg := range cfgs {
+				add(c05Line("run", sc, ms, n, cfg, k))
+			}
+			continue
+		}
+		cfgs := c05Configs
+		if sc.light {
+			cfgs = c05LightConfigs
 		}
 		for s := 0; s < seeds; s++ {
 			seed := rng.Int63n(1 << 30)
@@ -358,32 +883,168 @@ func (c05) Gen(rng *rand.Rand, tier string, emit func(string)) {
 			if s == 1 {
 				n = 1 + rng.Intn(5)
 			}
-			for _, cfg := range c05Configs {
+			for _, cfg := range cfgs {
 				reps := 1
-				if cfg[0] > 2 {
+				if cfg.cpu > 2 && !sc.light && cfg.in == "" {
 					reps = 2
 				}
 				for rep := 0; rep < reps; rep++ {
-					emit(fmt.Sprintf("run %s seed=%d nrec=%d cpu=%d batch=%d gmp=%d rep=%d", sc.name, seed, n, cfg[0], cfg[1], cfg[2], rep))
+					add(c05Line("run", sc, seed, n, cfg, rep))
 				}
 			}
 		}
 		// empty input
-		emit(fmt.Sprintf("run %s seed=1 nrec=0 cpu=4 batch=3 gmp=4 rep=0", sc.name))
+		add(c05Line("run", sc, 1, 0, c05Cfg{cpu: 4, batch: 3, gmp: 4}, 0))
+		// several output streams: tiny inputs, repeated (the program must not end before the writers of its
+		// secondary outputs have finished: a race that only a short run loses)
+		if len(sc.extra) > 0 {
+			tseed := rng.Int63n(1 << 30)
+			for _, n := range []int{1, 2} {
+				for rep := 0; rep < 5; rep++ {
+					add(c05Line("run", sc, tseed, n, c05Cfg{cpu: 2, batch: 1, gmp: 2}, rep))
+				}
+				add(c05Line("run", sc, tseed, n, c05Cfg{cpu: 16, batch: 1, gmp: 16, aff: 1}, 0))
+			}
+		}
 		// stress: thousands of one-record batches in flight between 16 workers, against the sequential run
 		// (compared with each other only: no per-record model data for that many records)
-		if sc.input != "pairs" {
-			sseed := rng.Int63n(1 << 30)
-			emit(fmt.Sprintf("run %s seed=%d nrec=4000 cpu=1 batch=4000 gmp=1 rep=0", sc.name, sseed))
-			emit(fmt.Sprintf("run %s seed=%d nrec=4000 cpu=16 batch=1 gmp=16 rep=0", sc.name, sseed))
-			emit(fmt.Sprintf("run %s seed=%d nrec=4000 cpu=8 batch=3 gmp=8 rep=1", sc.name, sseed))
+		sseed := rng.Int63n(1 << 30)
+		sn := 4000
+		if strings.HasSuffix(sc.input, "-sb") {
+			sn = 600 // records of several kilobytes
+		}
+		if sc.light && tier != "thorough" {
+			sn /= 4
+		}
+		add(c05Line("run", sc, sseed, sn, c05Cfg{cpu: 1, batch: sn, gmp: 1}, 0))
+		add(c05Line("run", sc, sseed, sn, c05Cfg{cpu: 16, batch: 1, gmp: 16}, 0))
+		add(c05Line("run", sc, sseed, sn, c05Cfg{cpu: 8, batch: 3, gmp: 8}, 1))
+		if !sc.light {
+			add(c05Line("run", sc, sseed, sn, c05Cfg{cpu: 16, batch: 2, gmp: 16, aff: 1}, 2))
+		}
+		if tier == "thorough" && c05FirstSeed() {
+			// the same stress under the race detector
+			add(c05Line("race", sc, sseed, sn/4, c05Cfg{cpu: 16, batch: 1, gmp: 16}, 0))
+			add(c05Line("race", sc, sseed, sn/4, c05Cfg{cpu: 4, batch: 3, gmp: 4, aff: 1}, 1))
 		}
 	}
+	// the runs are independent processes: they are executed ahead of their emission by a pool of workers (the
+	// comparisons between runs are made at emission time, in generation order: same verdicts as a sequential run)
+	c05Prefetch(lines)
+	for _, l := range lines {
+		emit(l)
+	}
+}
+
+// ---------------------------------------------------------------------------------------------------------
+// execution
+
+type c05Done struct {
+	res   c05Res
+	ready chan struct{}
+}
+
+var (
+	c05PreMu sync.Mutex
+	c05Pre   = map[string]*c05Done{}
+)
+
+func c05Prefetch(lines []string) {
+	// binaries first (so that the workers do not all wait on the build)
+	c05Build(false)
+	for _, l := range lines {
+		if strings.HasPrefix(l, "race ") {
+			c05Build(true)
+			break
+		}
+	}
+	c05PreMu.Lock()
+	var todo []string
+	for _, l := range lines {
+		if _, ok := c05Pre[l]; !ok {
+			c05Pre[l] = &c05Done{ready: make(chan struct{})}
+			todo = append(todo, l)
+		}
+	}
+	c05PreMu.Unlock()
+	ch := make(chan string, len(todo))
+	for _, l := range todo {
+		ch <- l
+	}
+	close(ch)
+	workers := 8
+	for w := 0; w < workers; w++ {
+		go func() {
+			for l := range ch {
+				c05PreMu.Lock()
+				d := c05Pre[l]
+				c05PreMu.Unlock()
+				if p, ok := c05Parse(l); ok {
+					d.res = c05Run(p.sc, c05Records(p.sc, int64(p.seed), p.nrec), p.cfg)
+					if p.nrec <= 500 && p.sc.kind != "opaque" && p.sc.kind != "set" {
+						c05Singles(p.sc, int64(p.seed), p.nrec) // warms the cache
+					}
+				}
+				close(d.ready)
+			}
+		}()
+	}
+}
+
+type c05Case struct {
+	op         string
+	sc         *c05Scenario
+	seed, nrec int
+	cfg        c05Cfg
+	fields     []string
+}
+
+func c05Parse(c string) (c05Case, bool) {
+	if k := strings.Index(c, " | "); k >= 0 {
+		c = c[:k]
+	}
+	f := strings.Fields(c)
+	var p c05Case
+	if len(f) < 8 || (f[0] != "run" && f[0] != "race") {
+		return p, false
+	}
+	p.op = f[0]
+	p.sc = c05Scenario_(f[1])
+	if p.sc == nil {
+		return p, false
+	}
+	get := func(s, key string) int {
+		if !strings.HasPrefix(s, key+"=") {
+			return -1
+		}
+		v, err := strconv.Atoi(s[len(key)+1:])
+		if err != nil {
+			return -1
+		}
+		return v
+	}
+	p.seed, p.nrec = get(f[2], "seed"), get(f[3], "nrec")
+	p.cfg = c05Cfg{cpu: get(f[4], "cpu"), batch: get(f[5], "batch"), gmp: get(f[6], "gmp"), in: "stdin", race: p.op == "race"}
+	if p.seed < 0 || p.nrec < 0 || p.cfg.cpu < 0 || p.cfg.batch < 1 || p.cfg.gmp < 1 || get(f[7], "rep") < 0 {
+		return p, false
+	}
+	for _, x := range f[8:] {
+		switch {
+		case x == "in=file" || x == "in=gz" || x == "in=stdin":
+			p.cfg.in = x[3:]
+		case strings.HasPrefix(x, "aff=") && get(x, "aff") >= 0:
+			p.cfg.aff = get(x, "aff")
+		default:
+			return p, false
+		}
+	}
+	p.fields = f
+	return p, true
 }
 
 var (
 	c05RefMu sync.Mutex
-	c05Ref   = map[string][]byte{} // first output seen per (scenario, seed, nrec)
+	c05Ref   = map[string][][]byte{} // first output seen per (scenario, seed, nrec)
 )
 
 func c05Hash(b []byte) string {
@@ -396,40 +1057,143 @@ func c05Hash(b []byte) string {
 	return fmt.Sprintf("%016x", h)
 }
 
+// c05SetCanon : a FASTA output as the sorted multiset of `sequence count` lines (obiuniq: the order of the
+// records and the identifier kept for a group are not claimed)
+func c05SetCanon(out []byte) []byte {
+	var items []string
+	for _, rec := range bytes.Split(out, []byte("\n>")) {
+		if len(rec) == 0 {
+			continue
+		}
+		nl := bytes.IndexByte(rec, '\n')
+		if nl < 0 {
+			continue
+		}
+		title := string(rec[:nl])
+		seq := strings.ReplaceAll(string(rec[nl+1:]), "\n", "")
+		count := "1"
+		if k := strings.Index(title, "\"count\":"); k >= 0 {
+			e := k + 8
+			for e < len(title) && title[e] >= '0' && title[e] <= '9' {
+				e++
+			}
+			count = title[k+8 : e]
+		}
+		items = append(items, seq+" "+count)
+	}
+	sort.Strings(items)
+	return []byte(strings.Join(items, "\n"))
+}
+
+// c05SummaryCanon : the JSON document printed by obisummary as `path value` lines (integer leaves, path
+// components joined by `/`), sorted by (length, bytes) of the path
+func c05SummaryCanon(out []byte) ([]byte, bool) {
+	var doc interface{}
+	dec := json.NewDecoder(bytes.NewReader(out))
+	dec.UseNumber()
+	if err := dec.Decode(&doc); err != nil {
+		return nil, false
+	}
+	type kv struct {
+		k string
+		v string
+	}
+	var leaves []kv
+	ok := true
+	var walk func(p string, x interface{})
+	walk = func(p string, x interface{}) {
+		switch t := x.(type) {
+		case map[string]interface{}:
+			for k, v := range t {
+				q := k
+				if p != "" {
+					q = p + "/" + k
+				}
+				walk(q, v)
+			}
+		case json.Number:
+			if _, err := strconv.ParseUint(t.String(), 10, 63); err != nil {
+				ok = false
+			}
+			leaves = append(leaves, kv{p, t.String()})
+		default:
+			ok = false
+		}
+	}
+	walk("", doc)
+	sort.Slice(leaves, func(i, j int) bool {
+		if len(leaves[i].k) != len(leaves[j].k) {
+			return len(leaves[i].k) < len(leaves[j].k)
+		}
+		return leaves[i].k < leaves[j].k
+	})
+	var sb strings.Builder
+	for _, l := range leaves {
+		if strings.ContainsAny(l.k, " \n") {
+			ok = false
+		}
+		sb.WriteString(l.k + " " + l.v + "\n")
+	}
+	return []byte(sb.String()), ok
+}
+
 func (c05) Exec(c string) (string, []Fail) {
-	f := strings.Fields(c)
-	if len(f) < 8 || f[0] != "run" {
+	p, ok := c05Parse(c)
+	if !ok {
 		return "bad-op", nil
 	}
-	sc := c05Scenario_(f[1])
-	if sc == nil {
-		return "bad-op", nil
-	}
-	get := func(s, key string) int {
-		if !strings.HasPrefix(s, key+"=") {
-			return -1
-		}
-		v, err := strconv.Atoi(s[len(key)+1:])
-		if err != nil {
-			return -1
-		}
-		return v
-	}
-	seed, nrec, cpu, batch, gmp := get(f[2], "seed"), get(f[3], "nrec"), get(f[4], "cpu"), get(f[5], "batch"), get(f[6], "gmp")
-	if seed < 0 || nrec < 0 || cpu < 1 || batch < 1 || gmp < 1 {
-		return "bad-op", nil
-	}
+	sc, f := p.sc, p.fields
 	stat("scenario:" + sc.name)
-	recs := c05Records(sc, int64(seed), nrec)
-	st, out := c05Run(sc, recs, cpu, batch, gmp)
+	stat("op:" + p.op)
+	stat("input:" + p.cfg.in)
+	if p.cfg.aff > 0 {
+		if c05HasTaskset {
+			stat("pinned-on-cores:" + strconv.Itoa(p.cfg.aff))
+		} else {
+			stat("pinning-unavailable")
+		}
+	}
+	if p.cfg.cpu == 0 {
+		stat("force-one-cpu")
+	}
+	if sc.gz {
+		stat("compressed-output")
+	}
+	base := strings.Join(f, " ")
+	c05PreMu.Lock()
+	d := c05Pre[base]
+	c05PreMu.Unlock()
+	var res c05Res
+	if d != nil {
+		<-d.ready
+		res = d.res
+	} else {
+		res = c05Run(sc, c05Records(sc, int64(p.seed), p.nrec), p.cfg)
+	}
+	st := res.status
 	var fails []Fail
 	if st != "ok" {
-		fails = append(fails, Fail{Sig: sc.name + ".outcome", Text: "command ended with " + st})
+		fails = append(fails, Fail{Sig: sc.name + ".outcome", Text: "command ended with " + st + ": " + res.detail})
 	}
-	if bytes.Contains(out, []byte{0xDB, 0xDB}) {
+	for len(res.streams) < 1+len(sc.extra) {
+		res.streams = append(res.streams, nil)
+	}
+	if res.poison {
 		fails = append(fails, Fail{Sig: sc.name + ".recycled-buffer-in-output", Text: "the output contains the poison value of a recycled buffer"})
 	}
-	if sc.input == "multifile" && st == "ok" {
+	out := res.streams[0]
+	if p.op == "race" {
+		seen := map[string]bool{}
+		for _, site := range res.races {
+			stat("race-report")
+			if !seen[site] {
+				seen[site] = true
+				fails = append(fails, Fail{Sig: "race." + site, Text: "the Go race detector reports a data race between " + site + " (scenario " + sc.name + ")"})
+			}
+		}
+		stat("race-run")
+	}
+	if (sc.input == "multifile" || sc.input == "bigannot") && st == "ok" {
 		prev, n, misordered := "", 0, false
 		for _, l := range bytes.Split(out, []byte("\n")) {
 			if len(l) > 0 && l[0] == '>' {
@@ -442,41 +1206,99 @@ func (c05) Exec(c string) (string, []Fail) {
 				n++
 			}
 		}
-		if n != nrec {
-			fails = append(fails, Fail{Sig: sc.name + ".records", Text: fmt.Sprintf("%d records out for %d in", n, nrec)})
+		if n != p.nrec {
+			fails = append(fails, Fail{Sig: sc.name + ".records", Text: fmt.Sprintf("%d records out for %d in", n, p.nrec)})
+		}
+	}
+	if sc.input == "bigannot" && st == "ok" {
+		// the input is in the canonical output form: the conversion is the identity
+		var in strings.Builder
+		for _, r := range c05Records(sc, int64(p.seed), p.nrec) {
+			in.WriteString(r[0])
+		}
+		if in.String() != string(out) {
+			k := firstDiff(out, []byte(in.String()))
+			lo, hi := max(0, k-60), min(len(out), k+60)
+			fails = append(fails, Fail{Sig: sc.name + ".identity", Text: fmt.Sprintf("the output is not the input (first difference at byte %d of %d: …%q…)", k, len(out), out[lo:hi])})
 		}
 	}
 	// identical bytes for every parallelism configuration and repetition
-	key := fmt.Sprintf("%s/%d/%d", sc.name, seed, nrec)
+	cmp := res.streams
+	if sc.kind == "set" {
+		cmp = [][]byte{c05SetCanon(out)}
+	}
+	key := fmt.Sprintf("%s/%d/%d", sc.name, p.seed, p.nrec)
 	c05RefMu.Lock()
 	ref, seen := c05Ref[key]
-	if !seen {
-		c05Ref[key] = out
+	if !seen && st == "ok" {
+		c05Ref[key] = cmp
 	}
 	c05RefMu.Unlock()
-	if seen && !bytes.Equal(ref, out) {
-		fails = append(fails, Fail{Sig: sc.name + ".parallelism-dependent", Text: fmt.Sprintf("output differs from the one of another configuration of the same input (%d vs %d bytes, first difference at %d)", len(out), len(ref), firstDiff(out, ref))})
+	if seen && st == "ok" {
+		for j := range cmp {
+			if j < len(ref) && !bytes.Equal(ref[j], cmp[j]) {
+				fails = append(fails, Fail{Sig: sc.name + ".parallelism-dependent", Text: fmt.Sprintf("output stream %d differs from the one of another configuration of the same input (%d vs %d bytes, first difference at %d)", j, len(cmp[j]), len(ref[j]), firstDiff(cmp[j], ref[j]))})
+				break
+			}
+		}
 	}
-	// data for the model: the per-record outputs (every record run alone)
-	result := st + " " + c05Hash(out)
+	// data for the model: the per-record outputs (every record run alone), one section per output stream
 	kind := sc.kind
-	if nrec > 500 {
+	if p.nrec > 500 {
 		kind = "opaque"
 	}
+	var result string
 	switch kind {
-	case "records", "csv", "count":
-		singles := c05Singles(sc, int64(seed), nrec)
-		parts := make([]string, len(singles))
-		for i, s := range singles {
-			parts[i] = hx([]byte(s))
+	case "records", "csv", "count", "json", "summary":
+		singles := c05Singles(sc, int64(p.seed), p.nrec)
+		sections, results := []string{}, []string{}
+		for j := range singles {
+			k := kind
+			if j > 0 {
+				k = sc.extra[j-1].kind
+			}
+			parts := make([]string, len(singles[j]))
+			for i, s := range singles[j] {
+				b := []byte(s)
+				switch {
+				case strings.HasPrefix(s, "!"):
+					parts[i] = hx(b)
+					continue
+				case k == "summary":
+					cb, ok := c05SummaryCanon(b)
+					if !ok {
+						cb = []byte("!unparsable")
+					}
+					parts[i] = hx(cb)
+				case k == "dispatch":
+					// the canonical form of a one-record run is `name:hex` (or `-`): used as it is
+					parts[i] = s
+				default:
+					parts[i] = hx(b)
+				}
+			}
+			sections = append(sections, k+" "+strings.Join(parts, " "))
+			o := res.streams[j]
+			switch k {
+			case "summary":
+				cb, ok := c05SummaryCanon(o)
+				if !ok && st == "ok" {
+					fails = append(fails, Fail{Sig: sc.name + ".summary-unparsable", Text: "the summary is not a JSON document of integer counters"})
+				}
+				results = append(results, hx(cb))
+			case "dispatch":
+				results = append(results, string(o))
+			default:
+				results = append(results, hx(o))
+			}
 		}
-		caseOverride = strings.Join(f, " ") + " | " + sc.kind + " " + strings.Join(parts, " ")
-		result = st + " " + hx(out)
+		caseOverride = base + " | " + strings.Join(sections, " | ")
+		result = st + " " + strings.Join(results, " ")
 	default:
-		caseOverride = strings.Join(f, " ") + " | opaque"
+		caseOverride = base + " | opaque"
 		result = st
 	}
-	if nrec == 0 {
+	if p.nrec == 0 {
 		caseTrivial = true
 	}
 	return result, fails
